@@ -198,6 +198,19 @@ pub fn tx_alphabet(n: &Node, cfg: &AlphaCfg) -> Vec<(String, Transaction, bool)>
             }
         }
     }
+    if cfg.adversarial {
+        // a second spend of a coin this history has already spent (earlier in this block, possibly created in it, or in an earlier block)
+        for c in m.spent_recently.iter() {
+            if c.1.coin_data.covhash != addr_true() && c.1.coin_data.covhash != addr_true2() {
+                continue;
+            }
+            if let Some((ins, carrier_out)) = spend_base(m, c) {
+                let mut outs = vec![out_t(c.1.coin_data.value.0, c.1.coin_data.denom)];
+                outs.extend(carrier_out);
+                acc.push((format!("respend({})", short(&c.0)), tx_t(TxKind::Normal, ins, outs, 0, vec![0x52]), false));
+            }
+        }
+    }
     if cfg.stakes {
         // a consistent stake with a MEL change output (first output: all of a SYM coin, staked for epochs cur+1 .. cur+2)
         if let (Some(sc), Some(mc)) = (coins_of(m, Denom::Sym, 1).first(), coins_of(m, Denom::Mel, 8).last()) {
